@@ -24,7 +24,8 @@ EXPLANATION = (
     "feeds gates_computed, and both size checks dominate; __iadd__ remaps by the identity over other.num_qubits; "
     "(MP-repeat) repeat(n) composes exactly n copies; (MP-index-guard) remove_identities never indexes an empty list "
     "and drops only a pair of equal applied gates (optionally separated by one barrier); (SB-MIRROR) iqft's emission "
-    "template (statement order, loop directions, wires, negated angle) is the reversal of qft's.  It does NOT decide "
+    "template (statement order, loop directions, wires, negated angle) is the reversal of qft's; (SB-INVOLUTION) as in "
+    "C12, for the peepholes of the circuit classes.  It does NOT decide "
     "unitary equalities, nor that a cancelled pair is self-inverse (an invariant of the callers)."
 )
 NOT_DECIDED = "unitary equalities; self-inverseness of cancelled pairs"
